@@ -75,12 +75,13 @@ func init() {
 			"(D-check-first) every command that loads a journal runs the checker in its first Process call, before any stage that looks at openings, transactions, assertions or closings;",
 			"(D-reject) every error return of the checker callbacks is control-dependent only on the reviewed conditions (account open?, same account?, quantity IsZero/Equal, NoCheck);",
 			"(C-sparse) no branch depends on the presence bit of a sparse Amounts entry (absent means zero).",
+			"(I-recheck) interning is atomic: a new account or commodity is inserted only after a membership test under the same exclusive lock, so one name has one object and positions keyed by it do not split;",
 		},
 		NotDecided: []string{
 			"the iff itself: the comparison of quantities in assertions, the zero test on close, the text of diagnostics;",
 			"assertions on non asset/liability accounts (the checker tracks quantities only for A/L accounts).",
 		},
-		Rules: []Rule{RuleDProcessOrder, RuleKSortedDays, RuleKFifo, RuleDOpenClose, RuleDReject, RuleDCheckFirst, RuleCSparse},
+		Rules: []Rule{RuleDProcessOrder, RuleKSortedDays, RuleKFifo, RuleDOpenClose, RuleDReject, RuleDCheckFirst, RuleCSparse, RuleIRecheck},
 	})
 }
 
@@ -92,12 +93,13 @@ func init() {
 			"(A-arrival, A-order, A-stage) no arrival order reaches stdout: the per-file batches reach the builder in path order, and every unordered iteration on the way to the output is order-free or sorted;",
 			"(D-include-path) include paths are Join(Dir(file being parsed), include text);",
 			"(D-push-once) each parsed file is pushed exactly once on every success path, and each cpr.Seq stage forwards each day exactly once.",
+			"(K-add-commutes) the journal builder accumulates directives order-free: Builder.Add only appends to bags, get-or-creates days and keeps a running minimum/maximum; no error return depends on earlier directives and nothing is deleted from the builder's maps; (K-nested-limit) the include loader has no concurrency limit that a deep include tree could exhaust;",
 		},
 		NotDecided: []string{
 			"byte equality of reports under permutation of the directives (no execution);",
 			"commutativity of the checker callbacks within one kind on one day (two opens, or two assertions, of one day are evaluated in arrival order; the verdict does not depend on it for journals the property admits, argued informally only).",
 		},
-		Rules: []Rule{RuleDProcessOrder, RuleKSortedDays, RuleAArrival, RuleAOrder, RuleDIncludePath, RuleDPushOnce},
+		Rules: []Rule{RuleDProcessOrder, RuleKSortedDays, RuleAArrival, RuleAOrder, RuleKAddCommutes, RuleDIncludePath, RuleDPushOnce, RuleKNestedLimit},
 	})
 }
 
@@ -110,12 +112,13 @@ func init() {
 			"(K-where-select) filters see the booked key, the mapping is applied only to what is inserted: `if Where(key) { Insert(Select(key), amount) }`;",
 			"(K-partition-whole) period start and end dates are consumed whole (closing days, columns);",
 			"(K-insert) every posting with a non-nil mapped account is added exactly once, keyed by the transaction's date.",
+			"(K-name-anchored) no unanchored substring replacement is applied to an account name or its segments (remapping edits the type root only);",
 		},
 		NotDecided: []string{
 			"any cell value: window, --last, --diff and closing arithmetic, running sums, row selection (arithmetic over runtime dates and amounts; no rule in reach bounds them);",
 			"the alignment of dates to period ends (C11).",
 		},
-		Rules: []Rule{RuleB1, RuleG1, RuleG2, RuleKWhereBeforeSelect, RuleKPartitionWhole, RuleKInsert, RuleKReportAmounts},
+		Rules: []Rule{RuleB1, RuleKNameAnchored, RuleG1, RuleG2, RuleKWhereBeforeSelect, RuleKPartitionWhole, RuleKInsert, RuleKReportAmounts},
 	})
 	claim(&Property{
 		ID: "C03",
@@ -126,12 +129,13 @@ func init() {
 			"(J-valuation) each posting is valued by an odd-symmetric function of its own quantity (shared with C01);",
 			"(K-both-directions) every price declaration also refreshes the reciprocal, so valuation through an inverted price uses the latest declaration;",
 			"(G1) prices are computed before valuation in every pipeline; (B1) the mirror account is computed from immutable segments.",
+			"(A-order) the loops of the valuation stage over the open positions are complete and order-free: no early success exit after effects, no order-dependent overwrite;",
 		},
 		NotDecided: []string{
 			"the values themselves: which day's price is the latest on or before a date, truncation results, chained prices (C12 decides the price function's determinism, not its value);",
 			"that the accumulated gain equals the sum of daily adjustments (arithmetic).",
 		},
-		Rules: []Rule{RuleKPriceMiss, RuleDStateAllPaths, RuleKReval, RuleKBothDirections, RuleJValuation, RuleG1, RuleB1},
+		Rules: []Rule{RuleKPriceMiss, RuleDStateAllPaths, RuleKReval, RuleKBothDirections, RuleJValuation, RuleG1, RuleB1, RuleAOrder},
 	})
 	claim(&Property{
 		ID: "C12",
@@ -142,11 +146,12 @@ func init() {
 			"(D-state-all-paths) the table is re-normalized exactly on days with price directives and carried forward otherwise;",
 			"(D-div) a zero price is rejected before the division;",
 			"(K-price-miss) an unconnected commodity has no price and valuing it is an error.",
+			"(K-prices-order) the order of a day's prices (a later one replaces an earlier one) is never changed: Day.Prices is written only by the builder's append and handed to no function;",
 		},
 		NotDecided: []string{
 			"which path's product is used among several chains (breadth-first from V, neighbours in name order, by reading), the 8-digit truncation values, and that the most recent declaration per pair is the one in the table on a given day (that is the price stage's carry-forward, C03).",
 		},
-		Rules: []Rule{RuleAOrder, RuleKBfs, RuleKBothDirections, RuleDDiv, RuleKPriceMiss, RuleDStateAllPaths},
+		Rules: []Rule{RuleAOrder, RuleKBfs, RuleKBothDirections, RuleKPricesOrder, RuleDDiv, RuleKPriceMiss, RuleDStateAllPaths},
 	})
 }
 
@@ -160,12 +165,13 @@ func init() {
 			"(C-range) range bounds are written only by Scope.Range, Advance (error positions), Range.Extend and the synthetic account of infer ([0, len(text)));",
 			"(C-index) every slice and index of the input text has bounds of the reviewed forms (scanner position, a range's own Start/End, line boundaries from bounded scans) or is dominated by a comparison with the text's length;",
 			"(K-text-identity) the text handed to parser.New reaches Scanner.text unchanged, so ranges index the caller's input.",
+			"(K-scope-first) the scope that yields a parse function's node range is opened before the function consumes anything and is never re-assigned to a later scope;",
 		},
 		NotDecided: []string{
 			"that the tree is the right tree for the text, that children lie within parents and directives are disjoint and increasing (follows from scopes being opened and closed in a nested fashion; K-range-last of the design was not built);",
 			"implicit panics other than the text accesses above (nil maps, type assertions) in the parser.",
 		},
-		Rules: []Rule{RuleELoops, RuleCPanicParser, RuleCOffset, RuleCRange, RuleCIndex, RuleKTextIdentity},
+		Rules: []Rule{RuleELoops, RuleCPanicParser, RuleCOffset, RuleCRange, RuleCIndex, RuleKTextIdentity, RuleKScopeFirst},
 	})
 }
 
@@ -265,11 +271,12 @@ func init() {
 			"(A-sort, A-order) the normal-form order is total for what is printed (transaction.Compare reads every printed field; days sorted by date);",
 			"(F-directive-types) ParseDirective, Builder.Add and the journal printer agree on the directive types;",
 			"(D-check-first) print runs the checker before printing.",
+			"(K-prices-order) no stage (the normal-form sort included) reorders a day's prices, whose order decides which of two same-day prices wins;",
 		},
 		NotDecided: []string{
 			"the round trip itself (no execution): that the printed text re-parses to the same model, e.g. escaping inside descriptions (see C13 for quotes), posting sign normalisation, date format strings.",
 		},
-		Rules: []Rule{RuleFKeywords, RuleFFields, RuleFMultiline, RuleFModelOnly, RuleKPrintPairs, RuleHQuotes, RuleCRound, RuleAOrder, RuleFDirectiveTypes, RuleDCheckFirst},
+		Rules: []Rule{RuleFKeywords, RuleFFields, RuleFMultiline, RuleFModelOnly, RuleKPrintPairs, RuleKPricesOrder, RuleHQuotes, RuleCRound, RuleAOrder, RuleFDirectiveTypes, RuleDCheckFirst},
 	})
 	claim(&Property{
 		ID: "C17",
@@ -349,11 +356,12 @@ func init() {
 			"(G3) two stages of one Process call share only registries, interned objects, the builder (unused by callbacks) or configuration objects no callback stores into;",
 			"(K-chan) every channel made by cpr.Produce/FanIn is closed by an unconditional defer in its worker; the only blocking channel operations reachable from a command are the selects of cpr.Push/Pop (with ctx.Done()) and receives dominated by a successful Wait; cpr.Seq's pool cancels on error, and in pools that do not, no consumer can fail before draining its input;",
 			"(K-fifo, D-push-once, F-directive-types, K-nested-limit) one goroutine per stage, each item forwarded exactly once, no directive type is dropped between the stages, no concurrency limit on the group with nested submission.",
+			"(I-recheck) a fresh object is published into a registry map only after a membership test under the same exclusive acquisition (no check-then-act across the read lock);",
 		},
 		NotDecided: []string{
 			"race freedom in general: no pointer analysis is available (x/tools v0.29 has no go/pointer; VTA resolves calls, not aliases), so races through objects other than the registries, interned objects and stage arguments are not excluded;",
 			"schedule-dependent liveness beyond the protocol rules.",
 		},
-		Rules: []Rule{RuleILocks, RuleB1, RuleB2, RuleG3, RuleKChan, RuleKFifo, RuleDPushOnce, RuleFDirectiveTypes, RuleKNestedLimit},
+		Rules: []Rule{RuleILocks, RuleIRecheck, RuleB1, RuleB2, RuleG3, RuleKChan, RuleKFifo, RuleDPushOnce, RuleFDirectiveTypes, RuleKNestedLimit},
 	})
 }
